@@ -16,6 +16,9 @@ Err(DD, OO) == EmptySelection(DD, OO) \/ ~SomeObs(DD)
 NoCtx == [T |-> <<>>, L |-> <<>>, S |-> <<>>, G |-> {}, n |-> 0, adj |-> <<>>, pos |-> <<>>]
 GoodReqs(X) == {r \in Requests(X.n) : ReqOk(X, r)}
 
+EnsThr == <<14150, 24150>>
+EnsProbD(vals, t) == LET ok == SelectSeq(vals, LAMBDA v : ~IsNaN(v)) IN
+                     IF ok = <<>> THEN NaN ELSE Frac(Cardinality({k \in DOMAIN ok : Le(ok[k], t)}), Len(ok))
 Emit(X) ==
   LET rseq == SetToSeq(GoodReqs(X))
   IN  PrintT(ToJson([fam |-> Family,
@@ -25,6 +28,12 @@ Emit(X) ==
                      err |-> X.n = 0,
                      times |-> CommonTimes(D, O), leads |-> CommonLeads(D, O), locs |-> CommonLocs(D, O),    \* per dimension, also when the selection is empty
                      axes |-> IF X.n = 0 THEN <<>> ELSE LET as == SetToSeq(MenuAxes \ {"all"}) IN [m \in DOMAIN as |-> [a |-> as[m], keys |-> SliceKeys(X, as[m])]],
+                     \* family C15Ens: the event probabilities derived from the (pre-aggregated) ensemble members, per input, on the verified grid
+                     ensprob |-> IF Family = "C15Ens" /\ X.n > 0
+                                 THEN [j \in 1..X.n |-> [thr \in DOMAIN EnsThr |-> [m \in DOMAIN X.cells |->
+                                         J(EnsProbD(<<X.adj[j, "e0", X.cells[m]], X.adj[j, "e1", X.cells[m]], X.adj[j, "e2", X.cells[m]]>>, R(EnsThr[thr])))]]]
+                                 ELSE <<>>,
+                     ensthr |-> EnsThr,
                      req |-> [k \in DOMAIN rseq |-> ReqJson(X, rseq[k])]]))
 
 Init == gen \in Universe(0) /\ phase = "generated" /\ ctx = NoCtx
